@@ -128,7 +128,7 @@ func runIO(c class, scale int) ioEvent {
 		ev.ErrAt = c.ErrAt * scale
 	}
 	data := source(c.L * scale)
-	ctx, cancel := context.WithCancel(context.Background())
+	ctx, cancel := cancellable(c.L + c.Param)
 	defer cancel()
 	if c.Pre {
 		cancel()
@@ -229,6 +229,21 @@ type cancelEvent struct {
 	Leaked         string `json:"leaked,omitempty"`
 }
 
+// cancellable: the flavours of a context that can be cancelled - plain, with an explicit cause (the error of the context is the
+// same: context.Canceled), or a child of one that is cancelled with a cause.
+func cancellable(n int) (context.Context, context.CancelFunc) {
+	switch ((n % 3) + 3) % 3 {
+	case 1:
+		ctx, cancel := context.WithCancelCause(context.Background())
+		return ctx, func() { cancel(errors.New("the caller lost interest")) }
+	case 2:
+		parent, cancel := context.WithCancelCause(context.Background())
+		ctx, stop := context.WithCancel(parent)
+		return ctx, func() { cancel(errors.New("the caller lost interest")); stop() }
+	}
+	return context.WithCancel(context.Background())
+}
+
 type env struct {
 	base    afero.Fs
 	root    string
@@ -295,7 +310,9 @@ func entryPoints() []entryPoint {
 			return fs.MoveWithContext(ctx, tree(e), filepath.Join(e.root, "moved"))
 		}},
 		// a move onto a directory that exists already: the tree is merged into it entry by entry (so is a move the backend cannot do by renaming)
-		{name: "Move/merge", prep: func(fs filesystem.FS, e *env) error { return fs.MkDir(filepath.Join(e.root, "merged", "already-there")) },
+		{name: "Move/merge", prep: func(fs filesystem.FS, e *env) error {
+			return fs.MkDir(filepath.Join(e.root, "merged", "already-there"))
+		},
 			run: func(ctx context.Context, fs filesystem.FS, e *env) error {
 				return fs.MoveWithContext(ctx, tree(e), filepath.Join(e.root, "merged"))
 			}},
@@ -379,7 +396,7 @@ func oneCancel(ep entryPoint, backend, scratch string, dirs, files, k int) (canc
 			return ev, err
 		}
 	}
-	ctx, cancel := context.WithCancel(context.Background())
+	ctx, cancel := cancellable(k + dirs)
 	defer cancel()
 	var count, after atomic.Int64
 	var cancelled atomic.Bool
